@@ -617,6 +617,13 @@ impl JobList {
     /// job are suspended but the [previous job](Self::previous_job) is not, the
     /// new job becomes the previous job.
     pub fn insert(&mut self, job: Job) -> usize {
+        // Remove any existing job for the same process ID first, so that the
+        // current and previous jobs are reselected as for any other removal
+        // and the new job is not mistaken for the ex-current or ex-previous job.
+        if let Some(index) = self.find_by_pid(job.pid) {
+            self.remove(index);
+        }
+
         let new_job_is_suspended = job.is_suspended();
         let ex_current_job_is_suspended =
             self.current_job().map(|index| self[index].is_suspended());
